@@ -128,6 +128,7 @@ def _communicate_capped(p, input, timeout):
         except OSError:
             pass
     out, err = b"".join(bufs[p.stdout]), b"".join(bufs[p.stderr])
+    sel.close()
     for f in (p.stdin, p.stdout, p.stderr):
         try:
             if f is not None:
